@@ -43,6 +43,7 @@ type Goroutine struct {
 	runnable bool
 	name     string
 	coroWait bool // waiting in coroswitch (or a coroutine not started yet): not schedulable
+	sleeping bool // in time.Sleep / verif.Tick: runs again only when nothing else can run
 }
 
 type Sched struct {
@@ -119,7 +120,7 @@ func (p *Path) wakeG(g *Goroutine) {
 func (p *Path) candidates() []*Goroutine {
 	var r []*Goroutine
 	for _, g := range p.sched.gs {
-		if g.done || g.coroWait {
+		if g.done || g.coroWait || g.sleeping {
 			continue
 		}
 		if g.runnable {
@@ -153,6 +154,16 @@ func (p *Path) scheduleNext(from *Goroutine) {
 		}
 	}()
 	cands := p.candidates()
+	if len(cands) == 0 {
+		// time passes only when nothing else can run: wake the sleepers
+		for _, g := range s.gs {
+			if !g.done && g.sleeping {
+				g.sleeping = false
+				g.runnable = true
+				cands = append(cands, g)
+			}
+		}
+	}
 	if len(cands) == 0 {
 		// nothing can run: deadlock (if main is not finished)
 		s.abort = deadlock{p.describeBlocked()}
@@ -230,6 +241,24 @@ func (p *Path) yield() {
 	if g.id == 0 && s.abort != nil {
 		panic(s.abort)
 	}
+	p.cur = g
+}
+
+// sleep suspends the current goroutine until every other goroutine is blocked
+// (the model of time passing: time.Sleep, verif.Tick).
+func (p *Path) sleep() {
+	g := p.cur
+	g.sleeping = true
+	p.scheduleNext(g)
+	<-g.wake
+	s := p.sched
+	if s.killed {
+		panic(goroutineKilled{})
+	}
+	if g.id == 0 && s.abort != nil {
+		panic(s.abort)
+	}
+	g.sleeping = false
 	p.cur = g
 }
 
